@@ -2,8 +2,8 @@
 (* Trace validation for the ASA VPN object graph (C01, C07, C08, C10).       *)
 EXTENDS AsaV, Json, IOUtils, SequencesExt
 
-VARIABLES l, i0, errl, nchg
-tvars == <<l, i0, errl, nchg>>
+VARIABLES l, i0, errl, nchg, touched
+tvars == <<l, i0, errl, nchg, touched>>
 Trace  == ndJsonDeserialize(IOEnv.TRACE)
 Ev     == Trace[l + 1]
 LastEv == Trace[l]
@@ -15,7 +15,7 @@ ObjOf(j) == [k \in DOMAIN j.objs |-> [kind |-> j.objs[k].kind, name |-> j.objs[k
 D0 == ObjOf(I0.dev)
 T  == ObjOf(I0.tgt)
 
-TInit == /\ l = 1 /\ i0 = 1 /\ errl = 0 /\ nchg = 0 /\ Trace[1].ev = "Init"
+TInit == /\ l = 1 /\ i0 = 1 /\ errl = 0 /\ nchg = 0 /\ touched = {} /\ Trace[1].ev = "Init"
          /\ obj = ObjOf(Trace[1].dev) /\ mode = NoMode /\ err = ""
 IsChange(e) == e.ev \notin {"Init", "Resume", "Done"}
 Dispatch(e) ==
@@ -33,8 +33,12 @@ TNext ==
   /\ l' = l + 1
   /\ IF Ev.ev = "Init"
      THEN /\ obj' = ObjOf(Ev.dev) /\ mode' = NoMode /\ err' = ""
-          /\ i0' = l + 1 /\ errl' = 0 /\ nchg' = 0
+          /\ i0' = l + 1 /\ errl' = 0 /\ nchg' = 0 /\ touched' = {}
      ELSE /\ Dispatch(Ev)
+          \* objects a deleting / altering command addresses (whether or not the device accepts it)
+          /\ touched' = touched \cup (CASE Ev.ev \in {"Clear", "TopNoLine"} -> {Ev.k}
+                                        [] Ev.ev \in {"SubLine", "SubNoLine"} /\ mode.k # "" -> {mode.k}
+                                        [] OTHER -> {})
           /\ i0' = i0
           /\ errl' = IF err = "" /\ err' # "" THEN l + 1 ELSE errl
           /\ nchg' = IF IsChange(Ev) THEN nchg + 1 ELSE nchg
@@ -61,15 +65,21 @@ Refs(o, S) == S \cup UNION {UNION {Rng(ln.r) : ln \in o[k].lines} : k \in S \cap
 Reach(o, S) == Refs(o, Refs(o, Refs(o, Refs(o, S))))
 Gen0(k) == I0.dev.objs[k].gen
 Unmanaged0 == Reach(D0, {k \in DOMAIN D0 : k \notin Reach(D0, Anchors(D0)) /\ ~Gen0(k)}) \cap DOMAIN D0
+ManagedReach0 == Reach(D0, Anchors(D0))
+Changed0 == {k \in Unmanaged0 : k \notin DOMAIN obj \/ obj[k].lines # D0[k].lines}
 FrameViol ==
-  IF \E k \in Unmanaged0 : k \notin DOMAIN obj \/ obj[k].lines # D0[k].lines
-  THEN "object outside Netspoc's scope deleted or changed" ELSE ""
+  IF (touched \cap Unmanaged0) \ ManagedReach0 # {} THEN "command deletes or alters an object outside Netspoc's scope"
+  ELSE IF Changed0 # {} THEN "object outside Netspoc's scope deleted or changed" ELSE ""
+\* Known finding (same class as SharedGroupEdit): an object that a managed anchor shares with a
+\* hand-made, unanchored object is edited in place (and what it no longer references is cleaned up)
+KF_SharedObjectEdit == FrameViol = "object outside Netspoc's scope deleted or changed"
+                       /\ \A k \in Changed0 : k \in ManagedReach0
 
 Post(j) == obj = ObjOf(j)
 Chk(ok, tag, detail, kf) == ok \/ PrintT(<<"VERR", LastEv.t, l, tag, detail, kf>>)
 Mon ==
   /\ Chk(~(err # "" /\ errl = l), "C08", err, "")
-  /\ Chk(LastEv.ev = "Init" \/ FrameViol = "", "C07", FrameViol, "")
+  /\ Chk(LastEv.ev = "Init" \/ FrameViol = "", "C07", FrameViol, IF KF_SharedObjectEdit THEN "SharedObjectEdit" ELSE "")
   /\ Chk(LastEv.ev \in {"Resume", "Done"} => Post(LastEv.post), "HARNESS", "post state of replica differs", "")
   /\ Chk(LastEv.ev = "Done" => Equivalent, "EQUIV", IF nchg = 0 THEN "unchanged" ELSE "final", "")
   /\ Chk(LastEv.ev = "Done" => LastEv.n2 = 0, "FIXPOINT", "second compare reports changes", "")
